@@ -13,6 +13,9 @@ What follows the encoding signature is an axis of its own (BODIES): two style ru
 @charset the fetcher then delivers b'' / '' - zero-length DATA, which is not the same as no answer: the ladder still fixes the
 reported encoding), or a comment only.  Without payload the reported encoding, the @charset mirror, the rule list and the
 decodability of the serialisation are still observed.
+
+Imports are also resolved AFTER the parse (`late_imports`): histories parse ; change the encoding the sheet reports ; load a new import, over every way a sheet gets its first
+encoding, every mutator of the encoding and every form of triggering a load: "the referring sheet's encoding" is the one it reports when the import is resolved.
 """
 import codecs
 import itertools
@@ -555,6 +558,240 @@ def _bom_witness():
         return [r.selectorText for r in s.cssRules if r.type == r.STYLE_RULE] != ['a']
     except Exception:  # noqa: BLE001
         return False
+
+
+# ----------------------------------------------------------------------------- 3b. imports resolved AFTER the parse: parse / change the encoding / load a new import
+
+# "the referring sheet's encoding" is the encoding the referring sheet reports WHEN the import is resolved.  An import is not only resolved while its sheet is parsed: setting
+# importRule.href, assigning importRule.cssText, inserting an @import rule (as text, as a rule object built with or without its parent sheet) or sheet.add() load a sheet later, when
+# the encoding the sheet was parsed with may have been replaced.  Histories:  parse (every way a sheet gets its first encoding) ; change the sheet's encoding (every mutator that
+# does it, or none) ; trigger a new import load (every form) ; the loaded sheet must follow  transport > BOM/@charset > encoding the referring sheet reports NOW > utf-8
+# (the override of a parse call is an argument of THAT call: what it leaves behind is the sheet's @charset rule, i.e. the parent slot).
+LATE_BASE = 'http://h.example/late/'
+LATE_CHANGES = ['keep', 'attr', 'attr-none', 'rule-attr', 'rule-csstext', 'delete-rule', 'insert-rule-text', 'attr-twice']
+LATE_TRIGGERS = ['href-set', 'rule-csstext', 'insert-text', 'insert-text-end', 'add-text', 'insert-rule-with-parent', 'insert-rule-orphan', 'insert-rule-built-href']
+
+
+def _late_targets():
+    """(entry, override?, top transport?, top content kind, level of the target sheet, l1 (transport?, kind) or None)"""
+    out = []
+    for has_o, top_ckind in itertools.product((False, True), ('charset', 'none')):
+        out.append(('parseString', has_o, False, top_ckind, 0, None))
+    for has_o, top_t, top_ckind in itertools.product((False, True), (False, True), ('charset', 'bom', 'none')):
+        out.append(('parseUrl', has_o, top_t, top_ckind, 0, None))
+    # the target is the imported sheet l1 (it got its encoding from its own transport / content / from the referring sheet / from the override)
+    for entry, has_o, top_t, top_ckind in (('parseString', False, False, 'none'), ('parseString', False, False, 'charset'), ('parseString', True, False, 'none'), ('parseUrl', False, True, 'none')):
+        for cfg in LEVEL_CONFIGS:
+            out.append((entry, has_o, top_t, top_ckind, 1, cfg))
+    return out
+
+
+def _late_change(cssutils, sheet, change, e2, e3, before):
+    """apply one way of changing the encoding a sheet reports -> the encoding the sheet must report afterwards (None: no @charset rule), or 'n/a' when the way does not apply"""
+    has_rule = bool(sheet.cssRules.length) and sheet.cssRules[0].type == sheet.cssRules[0].CHARSET_RULE
+    if change == 'keep':
+        return before if has_rule else None
+    if change == 'attr':
+        sheet.encoding = e2
+        return e2
+    if change == 'attr-twice':
+        sheet.encoding = e3
+        sheet.encoding = e2
+        return e2
+    if change == 'attr-none':
+        sheet.encoding = None
+        return None
+    if change == 'rule-attr':
+        if not has_rule:
+            return 'n/a'
+        sheet.cssRules[0].encoding = e2
+        return e2
+    if change == 'rule-csstext':
+        if not has_rule:
+            return 'n/a'
+        sheet.cssRules[0].cssText = '@charset "%s";' % e2
+        return e2
+    if change == 'delete-rule':
+        if not has_rule:
+            return 'n/a'
+        sheet.deleteRule(0)
+        return None
+    if change == 'insert-rule-text':
+        if has_rule:
+            return 'n/a'
+        sheet.insertRule('@charset "%s";' % e2, 0)
+        return e2
+    raise ValueError(change)
+
+
+def _late_trigger(cssutils, sheet, trigger, href):
+    """load a new import below sheet -> the import rule"""
+    irs = [r for r in sheet.cssRules if r.type == r.IMPORT_RULE]
+    first = 1 if sheet.cssRules.length and sheet.cssRules[0].type == sheet.cssRules[0].CHARSET_RULE else 0
+    if trigger == 'href-set':
+        if not irs:
+            return 'n/a'
+        irs[0].href = href
+        return irs[0]
+    if trigger == 'rule-csstext':
+        if not irs:
+            return 'n/a'
+        irs[0].cssText = '@import "%s";' % href
+        return irs[0]
+    if trigger == 'insert-text':
+        sheet.insertRule('@import "%s";' % href, first)
+    elif trigger == 'insert-text-end':
+        # behind the last @import / @charset rule
+        idx = max([i for i, r in enumerate(sheet.cssRules) if r.type in (r.IMPORT_RULE, r.CHARSET_RULE)] + [-1]) + 1
+        sheet.insertRule('@import url(%s) print;' % href, idx)
+        return sheet.cssRules[idx]
+    elif trigger == 'add-text':
+        sheet.add('@import "%s";' % href)
+        return [r for r in sheet.cssRules if r.type == r.IMPORT_RULE and r.href == href][-1]
+    elif trigger == 'insert-rule-with-parent':
+        sheet.insertRule(cssutils.css.CSSImportRule(href=href, parentStyleSheet=sheet), first)
+    elif trigger == 'insert-rule-orphan':
+        sheet.insertRule(cssutils.css.CSSImportRule(href=href), first)
+    elif trigger == 'insert-rule-built-href':
+        r = cssutils.css.CSSImportRule()
+        r.href = href
+        sheet.insertRule(r, first)
+    else:
+        raise ValueError(trigger)
+    return sheet.cssRules[first]
+
+
+def run_late(job):
+    """worker: one target sheet configuration x rotation -> (evaluations, kinds, [(what, detail, inputs, known_id)])"""
+    (entry, has_o, top_t, top_ckind, level, l1cfg), rot = job
+    cssutils = _quiet()
+    sink = _Sink()
+    n = 0
+    kinds = set()
+    for change, trigger, (late_t, late_ckind), form in itertools.product(LATE_CHANGES, LATE_TRIGGERS, LEVEL_CONFIGS, ('bytes', 'text')):
+        if form == 'text' and (late_t or late_ckind != 'none' or trigger not in ('href-set', 'insert-rule-with-parent')):
+            continue   # text content is decoded already: one row per direct trigger shows it is passed through
+        # ---- the parse
+        o = ENC8[(rot + 1) % 4] if has_o else None
+        if entry == 'parseString':
+            t0 = None
+            c0 = _pick([o], 1, rot)[0] if top_ckind == 'charset' else None
+            decl0 = c0
+        else:
+            t0 = _pick([o], 1, rot)[0] if top_t else None
+            c0 = _pick([o, t0], 1, rot + 1)[0] if top_ckind == 'charset' else None
+            decl0 = c0 if top_ckind == 'charset' else ('utf-8' if top_ckind == 'bom' else None)
+        enc0 = ladder(o, t0, decl0, None)
+        if entry == 'parseUrl' and first_statement(top_ckind, 'bytes', o, t0) != 'clean':
+            continue   # the top sheet itself is damaged (see first_statement): chains() has these rows
+        table = {}
+        enc1 = None
+        if level == 1:
+            has_t1, ckind1 = l1cfg
+            picks = _pick([o, enc0], 2, rot + 1)
+            t1 = picks[0] if has_t1 else None
+            c1 = picks[1] if ckind1 == 'charset' else None
+            if first_statement(ckind1, 'bytes', o, t1) != 'clean':
+                continue
+            content1, declared1 = make_content(ckind1, c1, 'bytes', b'@import "l2.css";')
+            table[LATE_BASE + 'l1.css'] = (t1, content1)
+            table[LATE_BASE + 'l2.css'] = (None, b'g{left:0}')
+            enc1 = ladder(o, t1, declared1, enc0)
+        before = enc1 if level == 1 else enc0
+        # ---- the encodings of the change and of the late sheet: different from the one the target sheet has, and from each other
+        e2, e3 = _pick([before], 2, rot + 2)
+        picks = _pick([before, e2], 2, rot + 3)
+        lt = picks[0] if late_t else None
+        lc = picks[1] if late_ckind == 'charset' else None
+        if first_statement(late_ckind, form, None, lt) != 'clean':
+            continue   # (BOM under a transport charset / in text: recorded class of the matrix, not this domain's subject)
+        late_content, late_declared = make_content(late_ckind, lc, form)
+        table[LATE_BASE + 'late.css'] = (lt, late_content)
+        rec = Rec(table)
+        inputs = {'entry': entry, 'override': o, 'top_transport': t0, 'top_content': top_ckind, 'top_charset': c0, 'target_level': level,
+                  'l1': None if level == 0 else {'transport': t1, 'content': ckind1, 'content_charset': c1}, 'encoding_after_parse': before,
+                  'change': change, 'new_encoding': e2, 'trigger': trigger, 'late': {'transport': lt, 'content': late_ckind, 'content_charset': lc, 'form': form}}
+        try:
+            if entry == 'parseString':
+                text = ('@charset "%s";' % c0 if c0 else '') + '@import "l1.css";z{left:0}'
+                top = cssutils.CSSParser(fetcher=rec).parseString(text, encoding=o, href=LATE_BASE + 'top.css')
+            else:
+                content0, _d = make_content(top_ckind, c0, 'bytes', b'@import "l1.css";')
+                table[LATE_BASE + 'top.css'] = (t0, content0)
+                top = cssutils.CSSParser(fetcher=rec).parseUrl(LATE_BASE + 'top.css', encoding=o)
+            target = top
+            if level == 1:
+                target = [r for r in top.cssRules if r.type == r.IMPORT_RULE][0].styleSheet
+            if target is None or norm(target.encoding) != norm(before):
+                continue   # the parse itself went wrong: imports_matrix / chains report it
+        except Exception as e:  # noqa: BLE001
+            sink.out.append(('bounded: parsing a sheet with an @import raises nothing', f'{inputs!r}: {type(e).__name__}: {e}', inputs, None))
+            continue
+        # ---- the change
+        try:
+            now = _late_change(cssutils, target, change, e2, e3, before)
+        except Exception as e:  # noqa: BLE001
+            sink.out.append(('bounded: changing the encoding of a parsed sheet raises nothing', f'{inputs!r}: {type(e).__name__}: {e}', inputs, None))
+            continue
+        if now == 'n/a':
+            continue
+        if norm(target.encoding) != norm(now or 'utf-8') or not charset_consistent(target):
+            sink.out.append(('bounded: sheet.encoding equals its @charset rule (utf-8 if none)', f'late import {inputs!r}: after the change the sheet reports {target.encoding!r}, expected {now or "utf-8"!r}',
+                             inputs, None))
+            continue
+        # ---- the late load
+        calls0 = len(rec.calls)
+        try:
+            rule = _late_trigger(cssutils, target, trigger, 'late.css')
+        except Exception as e:  # noqa: BLE001
+            sink.out.append(('bounded: loading an import into a parsed sheet raises nothing', f'{inputs!r}: {type(e).__name__}: {e}', inputs, None))
+            continue
+        if rule == 'n/a':
+            continue
+        n += 1
+        kinds.add((entry, has_o, top_t, top_ckind, level, l1cfg, change, trigger, late_t, late_ckind, form))
+        where = f'late import {inputs!r}'
+        if getattr(rule, 'type', None) != 3 or rule.href != 'late.css':
+            sink.out.append(('bounded: the import rule of a late load is in the sheet', f'{where}: rules {[r.cssText for r in target.cssRules]!r}', inputs, None))
+            continue
+        if LATE_BASE + 'late.css' not in rec.calls[calls0:]:
+            sink.out.append(('bounded: the fetcher is asked for the absolute URL of the import (once if it delivers)', f'{where}: asked {rec.calls[calls0:]!r}', inputs, None))
+        want = ladder(None, lt, late_declared, now)
+        check_sheet(sink, rule.styleSheet, want, TEXT_PAYLOAD if form == 'text' else DECODED[want], where, inputs, first='clean', body='rules')
+        # the referring sheet still reports what it reported before the load
+        if norm(target.encoding) != norm(now or 'utf-8') or not charset_consistent(target):
+            sink.out.append(('bounded: sheet.encoding equals its @charset rule (utf-8 if none)', f'{where}: after the load the referring sheet reports {target.encoding!r}, expected {now or "utf-8"!r}',
+                             inputs, None))
+    return n, kinds, sink.out
+
+
+def late_imports(ctx):
+    _quiet()
+    rots = (0,) if ctx.tier == 'quick' else (0, 1, 2, 3)
+    targets = _late_targets()
+    jobs = [(tg, rot) for tg in targets for rot in rots]
+    if ctx.jobs > 1:
+        with multiprocessing.get_context('fork').Pool(ctx.jobs) as pool:
+            results = list(pool.imap(run_late, jobs))
+    else:
+        results = [run_late(j) for j in jobs]
+    n = 0
+    kinds = set()
+    for k, kk, viol in results:
+        n += k
+        kinds |= kk
+        for what, detail, inputs, known in viol:
+            ctx.violation(what, detail, True, inputs, known_id=known)
+    ctx.bounded.append({'name': 'C08 imports resolved after the parse', 'evaluations': n, 'distinct_nontrivial': len(kinds), 'exhaustive': True,
+                        'rule': f'histories parse ; change the encoding ; load a new import.  parse: {len(targets)} target sheets - the top sheet of parseString (override given/not x @charset/none) and of parseUrl '
+                                '(override x transport x BOM/@charset/neither), and the imported sheet l1 (transport given/not x BOM/@charset/neither) below four of these tops; '
+                                f'change: {", ".join(LATE_CHANGES)} (sheet.encoding = e / None / twice, charsetRule.encoding, charsetRule.cssText, deleteRule(0), insertRule of an @charset text - those that apply); '
+                                f'load: {", ".join(LATE_TRIGGERS)} (importRule.href = .., importRule.cssText = .., insertRule / add of @import text, insertRule of a CSSImportRule built with its parent, without, '
+                                'and empty with href assigned before the insert); late sheet: (transport given/not) x (BOM/@charset/neither) as bytes, neither also as text; encodings pairwise distinct per row, '
+                                f'{len(rots)} rotations; expected encoding of the late sheet = transport, else content, else the encoding the referring sheet reports at that moment, else utf-8; observed: encoding, decoded payload, '
+                                '@charset mirror and decodable serialisation of the late sheet, URL asked, the referring sheet still reports its encoding; distinct = (target, change, load form, late configuration)',
+                        'samples': [{'entry': 'parseUrl', 'top_transport': 'iso-8859-1', 'change': 'attr', 'new_encoding': 'utf-8', 'trigger': 'href-set', 'late': 'neither', 'expected': 'utf-8'}],
+                        'bound': 'one change, one late load per history; late load below the top sheet or below a directly imported sheet'})
 
 
 # ----------------------------------------------------------------------------- 4. UTF-16 rows
